@@ -1,0 +1,84 @@
+//! Seams used only by the deterministic-simulation harness (`--cfg rnacos_verif`).
+//! Nothing in here is compiled into a normal build; no business logic lives here.
+use crate::common::AppSysConfig;
+use crate::grpc::nacos_proto::Payload;
+use crate::raft::filestore::model::LogIndexHeaderDo;
+use futures_util::future::BoxFuture;
+use std::cell::{Cell, RefCell};
+use std::sync::Arc;
+
+/// (sender config, target addr, payload) -> reply payload
+pub type TransportFn = Box<
+    dyn Fn(Arc<AppSysConfig>, Arc<String>, Payload) -> BoxFuture<'static, anyhow::Result<Payload>>,
+>;
+
+/// (tap name, detail)
+pub type TapFn = Box<dyn Fn(&str, String)>;
+
+thread_local! {
+    static TRANSPORT: RefCell<Option<Arc<TransportFn>>> = const { RefCell::new(None) };
+    static TAP: RefCell<Option<Arc<TapFn>>> = const { RefCell::new(None) };
+    /// (index_interval, data_area_index); 0 = keep the built-in value
+    static LOG_KNOB: Cell<(u16, u16)> = const { Cell::new((0, 0)) };
+}
+
+pub fn set_transport(f: TransportFn) {
+    TRANSPORT.with(|t| *t.borrow_mut() = Some(Arc::new(f)));
+}
+
+pub fn clear_transport() {
+    TRANSPORT.with(|t| *t.borrow_mut() = None);
+}
+
+pub async fn transport_send(
+    src: Arc<AppSysConfig>,
+    addr: Arc<String>,
+    payload: Payload,
+) -> Option<anyhow::Result<Payload>> {
+    let fut = TRANSPORT.with(|t| t.borrow().as_ref().map(|f| f(src, addr, payload)));
+    match fut {
+        Some(fut) => Some(fut.await),
+        None => None,
+    }
+}
+
+pub fn set_tap(f: TapFn) {
+    TAP.with(|t| *t.borrow_mut() = Some(Arc::new(f)));
+}
+
+pub fn clear_tap() {
+    TAP.with(|t| *t.borrow_mut() = None);
+}
+
+pub fn tap_enabled() -> bool {
+    TAP.with(|t| t.borrow().is_some())
+}
+
+pub fn tap(name: &str, detail: String) {
+    let f = TAP.with(|t| t.borrow().clone());
+    if let Some(f) = f {
+        f(name, detail)
+    }
+}
+
+/// Tuning knob for the log file geometry of *newly created* log files:
+/// the number of records per index entry and the end of the index area.
+pub fn set_log_knob(index_interval: u16, data_area_index: u16) {
+    LOG_KNOB.with(|k| k.set((index_interval, data_area_index)));
+}
+
+pub fn tune_log_header(mut header: LogIndexHeaderDo) -> LogIndexHeaderDo {
+    let (interval, area) = LOG_KNOB.with(|k| k.get());
+    if interval > 0 {
+        header.index_interval = interval;
+    }
+    if area > 0 {
+        header.data_area_index = area;
+    }
+    header
+}
+
+/// Mirror of a `std::fs::remove_file` into the simulated disk.
+pub fn unlink_sync(path: &str) {
+    tokio::fs::verif_unlink_sync(path);
+}
